@@ -127,8 +127,8 @@ pub fn run(args: &[String]) {
             let service = svc::standard_service(mlog.clone());
             loop {
                 let idx = next.fetch_add(1, Ordering::SeqCst);
-                if idx >= cases.len() {
-                    break;
+                if idx >= cases.len() || failures.lock().unwrap().len() > 40 {
+                    break; // enough evidence; every further hang would only cost its timeout
                 }
                 let case = &cases[idx];
                 let reqs = case["reqs"].as_array().unwrap();
